@@ -1,0 +1,9 @@
+//go:build verif
+
+package catalog
+
+// Read-only accessors used by the /verif correspondence harness.
+
+func VerifTagName(title string) string { return string(tagName(title)) }
+
+func VerifPathTagTitle(path string) string { return pathTagTitle(path) }
